@@ -26,6 +26,14 @@ MUT = [
  ("locator-base-stale", "sync/src/types/mod.rs", "            index -= step;\n            base = header_hash;", "            index -= step;", "C17", "m4"),
  ("prefilled-last-index-le", "sync/src/relayer/compact_block_verifier.rs", "            if index >= txs_len {", "            if index > txs_len {", "C16", "m5"),
  ("evict-key-min", "tx-pool/src/component/entry.rs", "            fee_rate: descendants_feerate.max(feerate),", "            fee_rate: descendants_feerate.min(feerate),", "C11", "m4"),
+ ("c02-detach-skips-uncles", "store/src/transaction.rs", "            self.delete(COLUMN_UNCLES, uncle.hash().as_slice())?;\n", "            let _ = uncle;\n", "C02", "m1"),
+ ("c02-attach-txinfo-index-const", "store/src/transaction.rs", "                .block_hash(block_hash.clone())\n                .index(index)\n", "                .block_hash(block_hash.clone())\n                .index(0usize)\n", "C02", "m1"),
+ ("c02-detach-index-by-number-only", "store/src/transaction.rs", "        self.delete(COLUMN_INDEX, block_number.as_slice())?;\n        self.delete(COLUMN_INDEX, block.hash().as_slice())\n", "        self.delete(COLUMN_INDEX, block_number.as_slice())?;\n        self.delete(COLUMN_INDEX, block_number.as_slice())\n", "C02", "m1"),
+ ("c02-attach-cells-delete-first", "store/src/cell.rs", "    txn.insert_cells(new_cells)?;\n\n    // mark inputs dead\n    // skip cellbase\n    let deads = transactions\n        .iter()\n        .skip(1)\n        .flat_map(|tx| tx.input_pts_iter());\n    txn.delete_cells(deads)?;\n", "    let deads = transactions\n        .iter()\n        .skip(1)\n        .flat_map(|tx| tx.input_pts_iter());\n    txn.delete_cells(deads)?;\n    txn.insert_cells(new_cells)?;\n", "C02", "m2"),
+ ("c02-attach-cells-no-skip", "store/src/cell.rs", "    let deads = transactions\n        .iter()\n        .skip(1)\n        .flat_map(|tx| tx.input_pts_iter());", "    let deads = transactions\n        .iter()\n        .flat_map(|tx| tx.input_pts_iter());", "C02", "m2"),
+ ("c02-detach-restores-with-detached-block-number", "store/src/cell.rs", "                    let block_number = info.block_number;\n                    let block_epoch = info.block_epoch;\n                    let tx_index = info.index;", "                    let block_number = block.number();\n                    let block_epoch = info.block_epoch;\n                    let tx_index = info.index;", "C02", "m3"),
+ ("c02-delete-cells-forgets-hash-column", "store/src/transaction.rs", "            self.delete(COLUMN_CELL_DATA, &key)?;\n            self.delete(COLUMN_CELL_DATA_HASH, &key)?;", "            self.delete(COLUMN_CELL_DATA, &key)?;", "C02", "m4"),
+ ("c02-rollback-oldest-first", "chain/src/verify.rs", "        for block in fork.detached_blocks().iter().rev() {", "        for block in fork.detached_blocks().iter() {", "C02", "m5"),
 ]
 sel = set(sys.argv[1:])
 for name, path, old, new, pid, only in MUT:
